@@ -63,37 +63,50 @@ structure CommandCall where
   terminated : Bool
   deriving Repr, Inhabited
 
+/-- The end of `parse` (parser.rs:417-430): optional white space, then the
+terminator (`\n`, message ends) or `;` (unit ends). -/
+def parseTail (nh : Node × Option Node) (query : Bool) (i6 : Bytes) (args : List Value) :
+    PResult (Option CommandCall) :=
+  (optP whitespace i6).bind fun i7 _ =>
+  (((tag 10 i7).map fun _ => true).orElse fun _ => (tag 59 i7).map fun _ => false).bind
+    fun i8 terminated =>
+  .ok i8 (some { node := nh.1, header := nh.2, query := query, args := args,
+                 terminated := terminated })
+
+/-- The parameter part of `parse` (parser.rs:405-415): a soft failure of the
+argument list puts the input back (the partly filled vector is kept, as in the
+Rust code). -/
+def parseArgs (nh : Node × Option Node) (query : Bool) (i5 : Bytes) (hasArgs : Bool) :
+    PResult (Option CommandCall) :=
+  if hasArgs then
+    match arguments i5 with
+    | (.ok i6 _, args) => parseTail nh query i6 args
+    | (.soft _, args) => parseTail nh query i5 args
+    | (.fatal e, _) => .fatal e
+    | (.incomplete, _) => .incomplete
+    | (.crash c, _) => .crash c
+  else parseTail nh query i5 []
+
+/-- `tag(b'?')(input).map(|(i, _)| (i, true)).unwrap_or_else(|_| (input, false))` (parser.rs:395-397). -/
+def queryMark (i3 : Bytes) : Bytes × Bool :=
+  match tag 63 i3 with
+  | .ok r _ => (r, true)
+  | _ => (i3, false)
+
+/-- `parse` after the header (parser.rs:395-430). -/
+def parseAfterHeader (nh : Node × Option Node) (i3 : Bytes) : PResult (Option CommandCall) :=
+  match whitespace (queryMark i3).1 with
+  | .ok i5 _ => parseArgs nh (queryMark i3).2 i5 true
+  | .soft _ => parseArgs nh (queryMark i3).2 (queryMark i3).1 false
+  | .fatal e => .fatal e
+  | .incomplete => .incomplete
+  | .crash c => .crash c
+
 /-- `parse(root, header, input)` (parser.rs:382-431). -/
 def parse (root header : Node) (input : Bytes) : PResult (Option CommandCall) :=
   (optP whitespace input).bind fun i1 _ =>
   (optP (tag 10) i1).bind fun i2 terminator =>
   if terminator.isSome then .ok i2 none else
-  (commandHeader root header i2).bind fun i3 nh =>
-  -- `tag(b'?')(input).map(..).unwrap_or_else(|_| (input, false))`
-  let (i4, query) : Bytes × Bool :=
-    match tag 63 i3 with
-    | .ok r _ => (r, true)
-    | _ => (i3, false)
-  let afterWs (i5 : Bytes) (hasArgs : Bool) : PResult (Option CommandCall) :=
-    let afterArgs (i6 : Bytes) (args : List Value) : PResult (Option CommandCall) :=
-      (optP whitespace i6).bind fun i7 _ =>
-      (((tag 10 i7).map fun _ => true).orElse fun _ => (tag 59 i7).map fun _ => false).bind
-        fun i8 terminated =>
-      .ok i8 (some { node := nh.1, header := nh.2, query := query, args := args,
-                     terminated := terminated })
-    if hasArgs then
-      match arguments i5 with
-      | (.ok i6 _, args) => afterArgs i6 args
-      | (.soft _, args) => afterArgs i5 args
-      | (.fatal e, _) => .fatal e
-      | (.incomplete, _) => .incomplete
-      | (.crash c, _) => .crash c
-    else afterArgs i5 []
-  match whitespace i4 with
-  | .ok i5 _ => afterWs i5 true
-  | .soft _ => afterWs i4 false
-  | .fatal e => .fatal e
-  | .incomplete => .incomplete
-  | .crash c => .crash c
+  (commandHeader root header i2).bind fun i3 nh => parseAfterHeader nh i3
 
 end Scpi
